@@ -151,6 +151,7 @@ type loopInfo struct {
 	parent   *loopInfo
 	decPrev  []string // decreases measure at header
 	visited  string
+	prevVals map[string]Val // during a back-edge check: the loop-carried variables' values at the loop head
 }
 
 type frame struct {
@@ -574,6 +575,12 @@ func (c *Ctx) newFrame(fn *ssa.Function, contract *FuncContract, depth int) *fra
 				}
 				if obj := d.Object(); obj != nil {
 					fr.debug[obj.Name()] = append(fr.debug[obj.Name()], d)
+				} else if d.Expr != nil {
+					// expression reference: indexed by its source text, e.g. `p2.Polygons()`
+					if txt := c.prog.exprText(d.Expr.Pos(), d.Expr.End()); txt != "" {
+						key := "`" + txt + "`"
+						fr.debug[key] = append(fr.debug[key], d)
+					}
 				}
 			}
 		}
@@ -1051,6 +1058,10 @@ func (fr *frame) backEdge(b *ssa.BasicBlock, li *loopInfo, st *State, cond strin
 	for _, phi := range phis {
 		newVals[phi] = fr.val(phi.Edges[predIdx])
 	}
+	li.prevVals = map[string]Val{}
+	for _, phi := range phis {
+		li.prevVals[phi.Comment] = saved[phi]
+	}
 	for _, phi := range phis {
 		fr.vals[phi] = newVals[phi]
 	}
@@ -1099,6 +1110,7 @@ func (fr *frame) backEdge(b *ssa.BasicBlock, li *loopInfo, st *State, cond strin
 	for _, phi := range phis {
 		fr.vals[phi] = saved[phi]
 	}
+	li.prevVals = nil
 	fr.curReach = savedReach
 	li.counter = savedCounter
 	for _, phi := range phis {
@@ -1281,6 +1293,10 @@ func (fr *frame) execInstr(ins ssa.Instruction, st *State) {
 		fr.vals[x] = Val{T: v.T, Ty: x.Type()}
 	case *ssa.ChangeType:
 		v := fr.val(x.X)
+		if fs, ts := c.sortOf(x.X.Type()), c.sortOf(x.Type()); fs != ts {
+			// conversion between distinct named struct types with identical layout
+			v = Val{T: c.convertStruct(v.T, x.X.Type(), x.Type())}
+		}
 		v.Ty = x.Type()
 		fr.vals[x] = v
 	case *ssa.Convert:
@@ -1337,6 +1353,29 @@ func (fr *frame) execInstr(ins ssa.Instruction, st *State) {
 			fr.vals[v] = Val{T: c.declConst("undef", c.sortOf(v.Type())), Ty: v.Type()}
 		}
 	}
+}
+
+// convertStruct rebuilds a struct value of type from as a value of type to
+// (identical underlying field layout, as Go requires for the conversion).
+func (c *Ctx) convertStruct(x string, from, to types.Type) string {
+	fs, ts := structOf(from), structOf(to)
+	if fs == nil || ts == nil || fs.NumFields() != ts.NumFields() {
+		c.errs = append(c.errs, fmt.Sprintf("unsupported conversion %s -> %s", from, to))
+		return x
+	}
+	var args []string
+	for i := 0; i < fs.NumFields(); i++ {
+		f := c.fieldSel(from, i, x)
+		if c.sortOf(fs.Field(i).Type()) != c.sortOf(ts.Field(i).Type()) {
+			f = c.convertStruct(f, fs.Field(i).Type(), ts.Field(i).Type())
+		}
+		args = append(args, f)
+	}
+	name := c.sortOf(to)
+	if len(args) == 0 {
+		return "mk_" + name
+	}
+	return "(mk_" + name + " " + strings.Join(args, " ") + ")"
 }
 
 func (c *Ctx) closBinding(fn *ssa.Function, i int, id string) string {
@@ -1644,6 +1683,10 @@ func (fr *frame) execConvert(x *ssa.Convert) {
 		if c.sortOf(from) == c.sortOf(to) {
 			v.Ty = to
 			fr.vals[x] = v
+			return
+		}
+		if structOf(from) != nil && structOf(to) != nil {
+			fr.vals[x] = Val{T: c.convertStruct(v.T, from, to), Ty: to}
 			return
 		}
 		fr.unsup("convert %s -> %s", from, to)
